@@ -342,6 +342,25 @@ def translate() -> tuple[str, dict]:
         raise TranslatorError("circuit_timeout / next_hop_timeout are not positive integer literals")
 
     guards = translate_guards(ctree)
+    # NO_CRYPTO_PACKETS: the message ids that may travel as plaintext cells (everything else must arrive onion-encrypted)
+    nocrypto = None
+    for st in ptree.body:
+        if isinstance(st, ast.Assign) and isinstance(st.targets[0], ast.Name) and st.targets[0].id == "NO_CRYPTO_PACKETS":
+            if not isinstance(st.value, ast.List):
+                raise TranslatorError("NO_CRYPTO_PACKETS is not a list literal")
+            ids = []
+            for el in st.value.elts:
+                u = ast.unparse(el)
+                if isinstance(el, ast.Constant) and isinstance(el.value, int):
+                    ids.append(el.value)
+                elif u.endswith(".msg_id") and u[:-7] in layouts:
+                    ids.append(layouts[u[:-7]][0])
+                else:
+                    raise TranslatorError(f"NO_CRYPTO_PACKETS entry not understood: {u}")
+            nocrypto = ids
+    if nocrypto is None:
+        raise TranslatorError("NO_CRYPTO_PACKETS not found in payload.py")
+    msgids = {k: v[0] for k, v in layouts.items()}
     fresh = camel(gfresh[0])
     out = f"""/-
   GENERATED by tools/gen_c08.py from {SRC} — do not edit.
@@ -367,6 +386,15 @@ def genVerify [DecidableEq Tag] (C : Crypto Tag Sess Blob) (dhSecret : Key) (dhR
 
 /-- settings.circuit_timeout // settings.next_hop_timeout : tries for a new circuit -/
 def genInitialTries : Int := {ct // nh}
+
+/-- payload.NO_CRYPTO_PACKETS: message ids that are allowed to arrive as plaintext cells -/
+def genNoCryptoPackets : List Nat := {nocrypto}
+
+/-- msg_id of Create / Created / Extend / Extended payloads -/
+def genMsgIdCreate : Nat := {msgids["CreatePayload"]}
+def genMsgIdCreated : Nat := {msgids["CreatedPayload"]}
+def genMsgIdExtend : Nat := {msgids["ExtendPayload"]}
+def genMsgIdExtended : Nat := {msgids["ExtendedPayload"]}
 {guards}
 end Ipv8.C08
 """
